@@ -519,6 +519,9 @@ var faultFamily = []string{
 	// raw
 	"a {% raw %} {{ x }} {% endraw %} b", "a {%- raw -%} x {{ y }} {%- endraw -%} b", "{% raw %}{% endraw %}", "{% raw %}{{ a }}{% b %}{%- c -%}{% endraw %}", "x {%- raw %} y {% endraw -%} z",
 	"{% raw %} {{- y -}} {% endraw %}",
+	// a neighbour's hyphen next to a value or a raw body with white space at its edges (written through WriteVerbatim: flushed at once)
+	"{{ s -}}{{ sp }}{{- s }}", "{{ s -}}{{ words }}{{- s }}", "{{ s -}}{% raw %}  y  {% endraw %}{{- s }}", "a {{ s -}}{{ empty }}{{ sp }} b", "a {{ s -}}{{ nilv }}{{ sp }}{{ nilv }}{{- s }} b",
+	"{% for i in nums -%}{{ sp }}{%- endfor %}", "{% capture c -%}{{ sp }}{%- endcapture %}{{ s -}}{{ c }}{{- s }}", "x {% if flag -%}{% raw %} r {% endraw %}{%- endif %} y",
 	// if / unless / case
 	"{% if flag %}yes{% else %}no{% endif %}", "{% if nilv %}yes{% elsif n == 2 %}two{% else %}no{% endif %}!", "{% unless flag %}a{% else %}b{% endunless %}", "{% unless nilv %} a {% endunless %}",
 	"{% case n %}{% when 1 %}one{% when 2, 3 %}two{% else %}other{% endcase %}", "{% case s %}ignored{% when 'x' %}x{% else %}{{ s }}{% endcase %}", "{% if flag %}{% endif %}", "{% if flag %}{% if n %}{{ n }}{% endif %}x{% endif %}",
